@@ -146,6 +146,13 @@ func decryptWithKey(ctx context.Context, keyId string, ct []byte, sharedKey []by
 		return fmt.Errorf("(%s) error unmarshaling incoming blob info: %w", op, err)
 	}
 
+	// The aead wrapper slices the 12-byte GCM nonce off the front of the
+	// ciphertext without checking the length, which panics on short input;
+	// this is data from a remote peer, so reject it here instead
+	if len(blobInfo.Ciphertext) < 12 {
+		return fmt.Errorf("(%s) incoming ciphertext is too short", op)
+	}
+
 	var aadOpt wrapping.Option
 	if keyId != "" {
 		aadOpt = wrapping.WithAad([]byte(keyId))
